@@ -30,6 +30,7 @@ for f in sorted(glob.glob(os.path.join(VERIF, 'seeded', '*', 'meta.json'))):
                 if ctxt and ctxt not in funcs:
                     funcs.append(ctxt)
         what = 'patch touches %s: %s' % (', '.join(files), '; '.join(funcs)[:200])
+    what = ''.join(ch if ch >= ' ' else '?' for ch in what)          # (authors' notes may quote control characters)
     what = 'r%s: ' % rnd + what[:330] + ('…' if len(what) > 330 else '')
     rows.append('| %s | %s | %s | %s | %s |' % (name, 'yes' if m.get('confirmed') else 'NO', own[0] if own else '**missed**',
                                              ', '.join(others) or '–', what.replace('|', '/')))
